@@ -18,3 +18,39 @@ pub fn packet_bytes(dst: u8, me: u8, mt: u8, body: &[u8]) -> Vec<u8> {
     v.push(p);
     v
 }
+
+// ---- reference decoder (C09), over raw bytes: mirrors spec/verif_prelude.rs (hdr_ok, pec_ok, ctrl_ok, decode_accepts ...)
+pub fn mt_supported(t: u8) -> bool { matches!(t, 0 | 5 | 6 | 0x7e | 0x7f) }
+pub fn mt_of(t: u8) -> u8 { if mt_supported(t) { t } else { 0xFF } }
+pub fn hdr_ok(p: &[u8]) -> bool { p.len() >= 10 && p[4] == 1 && p[8] & 0x80 == 0 && mt_supported(p[8] & 0x7f) }
+pub fn pec_ok(p: &[u8]) -> bool { !p.is_empty() && p[p.len() - 1] == crc8(&p[..p.len() - 1]) }
+pub fn req_len(cmd: u8) -> usize { match cmd { 1 => 2, 4 | 6 | 7 => 1, 8 => 3, _ => 0 } }
+/// C09's list (Set EID 3, UUID 16, Version 5)
+pub fn resp_len(cmd: u8) -> usize { match cmd { 1 => 3, 3 => 16, 4 => 5, _ => 0 } }
+/// the library's table including the three entries that are outside the claim of C09
+pub fn resp_len_lib(cmd: u8) -> usize { match cmd { 1 => 3, 2 => 4, 3 => 16, 4 => 5, 8 => 4, 9 => 1, _ => 0 } }
+pub fn ctrl_data_len(p: &[u8]) -> isize { if p[9] & 0x80 != 0 { p.len() as isize - 12 } else { p.len() as isize - 13 } }
+pub fn ctrl_fixed_len(p: &[u8]) -> usize { if p[9] & 0x80 != 0 { req_len(p[10]) } else { resp_len_lib(p[10]) } }
+pub fn c09_claimed(p: &[u8]) -> bool { !(hdr_ok(p) && p[8] & 0x7f == 0 && p.len() >= 12 && p[9] & 0x80 == 0 && matches!(p[10], 2 | 8 | 9)) }
+pub fn decode_accepts(p: &[u8]) -> bool {
+    if !(hdr_ok(p) && pec_ok(p)) { return false; }
+    if p[8] & 0x7f != 0 { return true; }
+    if p.len() < 12 { return false; }
+    if p[9] & 0x80 == 0 && !(p.len() >= 13 && p[11] == 0) { return false; }
+    let f = ctrl_fixed_len(p);
+    f == 0 || ctrl_data_len(p) == f as isize
+}
+pub fn payload_start(p: &[u8]) -> usize { if p[8] & 0x7f == 0 { if p[9] & 0x80 != 0 { 11 } else { 12 } } else { 9 } }
+/// recorded finding D9 (decoder panic classes)
+pub fn decode_known_panic(p: &[u8]) -> bool {
+    hdr_ok(p) && p[8] & 0x7f == 0 && p.len() >= 12 && (
+        (p[9] & 0x80 != 0 && p[10] > 8)
+        || (p[9] & 0x80 == 0 && p.len() >= 13 && (p[11] > 5 || (p[11] == 0 && !(p[10] <= 6 || p[10] == 8 || p[10] == 9)))))
+}
+/// recorded finding D10 (processor panic classes)
+pub fn process_known_panic(p: &[u8], n_vendor: usize) -> bool {
+    decode_accepts(p) && p[8] & 0x7f == 0 && p[9] & 0x80 != 0 && (
+        p[10] == 0 || p[10] == 7 || p[10] == 8
+        || (p[10] == 1 && !(p[11] == 0 || p[11] == 1 || p[11] == 3))
+        || (p[10] == 6 && p[11] as usize >= n_vendor))
+}
